@@ -283,10 +283,11 @@ func (c *KCase) Interleaved() bool {
 // ---------- the node: one real backend per engine, reused across cases (fresh keys per case) ----------
 
 type kbThread struct {
-	env       int
-	abortNext bool
-	resps     []KResp
-	panicked  interface{}
+	env        int
+	abortNext  bool
+	parkCommit bool // park inside the batch, right before the engine Commit
+	resps      []KResp
+	panicked   interface{}
 }
 
 type KBNode struct {
@@ -314,6 +315,8 @@ type KBNode struct {
 	holdEntered chan struct{}
 	holdRelease chan struct{}
 	// compactGate: a Del / DelCurrent of this internal key (the compactor's) is held until released
+	// barrier: when set, every batch commit waits here until `barrierN` commits have arrived (aligned commits)
+	barrier        *kbBarrier
 	compactGate    []byte
 	compactEntered chan struct{}
 	compactRelease chan struct{}
@@ -358,6 +361,11 @@ func kbInstallHook() {
 }
 
 func NewKBNode(engine, scratch string) (*KBNode, error) {
+	return NewKBNodeCfg(engine, scratch, 0)
+}
+
+// NewKBNodeCfg is NewKBNode with a non-default watch cache size (0 = default).
+func NewKBNodeCfg(engine, scratch string, watchCacheSize int) (*KBNode, error) {
 	kbInstallHook()
 	inner, closer, err := NewEngine(engine, scratch)
 	if err != nil {
@@ -368,7 +376,7 @@ func NewKBNode(engine, scratch string) (*KBNode, error) {
 	n.kv = &Wrap{KvStorage: inner}
 	n.kv.Before = n.before
 	n.kv.CommitFault = n.commitFault
-	n.B = backend.NewBackend(n.kv, backend.Config{Prefix: KBPrefix, Identity: "kbsched"}, &NopMetrics{})
+	n.B = backend.NewBackend(n.kv, backend.Config{Prefix: KBPrefix, Identity: "kbsched", WatchCacheSize: watchCacheSize}, &NopMetrics{})
 	n.B.SetCurrentRevision(KBInitRev)
 	n.mainGoid = GoID()
 	n.watched = map[string]uint64{}
@@ -463,6 +471,12 @@ func (n *KBNode) before(kind string, key []byte) error {
 
 func (n *KBNode) commitFault() (error, bool) {
 	n.mu.Lock()
+	bar := n.barrier
+	n.mu.Unlock()
+	if bar != nil {
+		bar.arrive()
+	}
+	n.mu.Lock()
 	hold := n.holdNext
 	var entered, release chan struct{}
 	if hold {
@@ -475,6 +489,12 @@ func (n *KBNode) commitFault() (error, bool) {
 		<-release
 	}
 	th := n.thread()
+	if th != nil && th.parkCommit {
+		// the batch is staged (on memkv its compares have been evaluated under the store lock, on the
+		// transactional engines the transaction has begun); the engine Commit has not been called
+		th.parkCommit = false
+		n.S.Yield("engine.commit")
+	}
 	if th == nil {
 		n.mu.Lock()
 		u := n.uncertainNext
@@ -632,6 +652,11 @@ type KBSpec struct {
 	Hold         bool
 	HoldThread   int
 	HoldDeadline time.Duration
+	// ParkCommit: these threads park INSIDE their first batch, after staging and right before the engine
+	// Commit (a second yield point). While one is parked, another thread that needs the memkv store lock
+	// blocks (expected there); on the transactional engines it runs, and the parked commit then meets the
+	// engine's own conflict detection.
+	ParkCommit []int
 }
 
 func (n *KBNode) seqCall(q KReq, key []byte) (KResp, error) {
@@ -832,6 +857,27 @@ func (n *KBNode) RunCase(spec KBSpec) (*KCase, error) {
 		n.mu.Unlock()
 	}()
 
+	for _, pt := range spec.ParkCommit {
+		if pt < len(ctls) && ctls[pt] != nil {
+			ctls[pt].parkCommit = true
+		}
+	}
+	lockEngine := n.Engine == EngMem || n.Engine == EngWrapMem
+	blocked := make([]bool, len(progs))     // resumed, waiting for the memkv store lock
+	blockedAt := make([]string, len(progs)) // the point it was resumed from
+	blockedEnv := make([]int, len(progs))
+	parkStart := make([]int, len(progs)) // step index at which the thread parked at its commit
+	type applied struct{ step, t, key int }
+	var applieds []applied
+	respCount := make([]int, len(progs))
+	noteResps := func(t int, rs []KResp) {
+		for _, r := range rs {
+			if respCount[t] < len(progs[t]) && !r.Err && r.Succ {
+				applieds = append(applieds, applied{len(c.Steps), t, progs[t][respCount[t]].Key})
+			}
+			respCount[t]++
+		}
+	}
 	done := make([]bool, len(progs))
 	heldDone := false
 	seenResps := make([]int, len(progs))
@@ -840,7 +886,7 @@ func (n *KBNode) RunCase(spec KBSpec) (*KCase, error) {
 		alive := []int{}
 		at := []string{}
 		for i := range progs {
-			if !done[i] {
+			if !done[i] && !blocked[i] {
 				alive = append(alive, i)
 				if i == rw && rwVirtual {
 					at = append(at, "start")
@@ -850,6 +896,14 @@ func (n *KBNode) RunCase(spec KBSpec) (*KCase, error) {
 			}
 		}
 		if len(alive) == 0 {
+			stillBlocked := false
+			for i := range progs {
+				stillBlocked = stillBlocked || (blocked[i] && !done[i])
+			}
+			if stillBlocked {
+				runErr = fmt.Errorf("threads are blocked and nobody can release them")
+				n.Dead = true
+			}
 			break
 		}
 		if step > 400 {
@@ -971,8 +1025,28 @@ func (n *KBNode) RunCase(spec KBSpec) (*KCase, error) {
 		ctls[t].env = env
 		c.Choices = append(c.Choices, t)
 		c.Alive = append(c.Alive, alive)
-		p, fin := n.S.Step(threads[t], 3*time.Second)
+		someoneParked := false
+		for i := range progs {
+			if i != t && i != rw && !done[i] && threads[i] != nil && threads[i].Point == "engine.commit" {
+				someoneParked = true
+			}
+		}
+		wait := 3 * time.Second
+		if someoneParked && lockEngine {
+			wait = 150 * time.Millisecond
+		}
+		anyBlocked := false
+		for b := range progs {
+			anyBlocked = anyBlocked || blocked[b]
+		}
+		sampleBefore := n.B.GetCurrentRevision()
+		p, fin := n.S.Step(threads[t], wait)
 		if p == "<blocked>" {
+			if someoneParked && lockEngine {
+				// expected on memkv: the parked batch holds the store lock from BeginBatchWrite to Commit
+				blocked[t], blockedAt[t], blockedEnv[t] = true, point, env
+				continue
+			}
 			runErr = fmt.Errorf("thread %d blocked after step %d", t, step)
 			n.Dead = true
 			break
@@ -984,7 +1058,68 @@ func (n *KBNode) RunCase(spec KBSpec) (*KCase, error) {
 		newResps := append([]KResp{}, ctls[t].resps[seenResps[t]:]...)
 		seenResps[t] = len(ctls[t].resps)
 		n.mu.Unlock()
-		c.Steps = append(c.Steps, KStep{T: t, Env: env, Kind: point, Resps: newResps, Sample: n.B.GetCurrentRevision()})
+		kind := point
+		if point == "engine.batch" && p == "engine.commit" {
+			kind = "hold" // staged and parked before the engine Commit: nothing has happened to the store
+			parkStart[t] = len(c.Steps)
+		} else if point == "engine.commit" {
+			kind = "engine.batch"
+			// the engine's own conflict detection: a transactional engine must refuse this commit if another
+			// thread applied a write to the same key since the batch began (DESIGN.md section 5)
+			if respCount[t] < len(progs[t]) {
+				myKey := progs[t][respCount[t]].Key
+				for _, a := range applieds {
+					if a.step > parkStart[t] && a.t != t && a.key == myKey {
+						switch n.Engine {
+						case EngBadger, EngWrapBadger:
+							env = EnvError // badger.ErrConflict: an ordinary error for the backend
+						case EngTiKV:
+							env = EnvAbort // write conflict -> storage.ErrCASFailed
+						}
+					}
+				}
+			}
+		}
+		noteResps(t, newResps)
+		sample := n.B.GetCurrentRevision()
+		if anyBlocked {
+			// threads that were waiting for the store lock run on by themselves as soon as this commit is done:
+			// a sample taken now would race with them, so the one taken before this step stands for it
+			sample = sampleBefore
+		}
+		c.Steps = append(c.Steps, KStep{T: t, Env: env, Kind: kind, Resps: newResps, Sample: sample})
+		if point == "engine.commit" {
+			// whoever was waiting for the store lock can go on now
+			for b := range progs {
+				if !blocked[b] {
+					continue
+				}
+				pb, finb := n.S.Wait(threads[b], 3*time.Second)
+				if pb == "<blocked>" {
+					runErr = fmt.Errorf("thread %d still blocked after the parked commit was released", b)
+					n.Dead = true
+					break
+				}
+				blocked[b] = false
+				if finb {
+					done[b] = true
+				}
+				n.mu.Lock()
+				rs := append([]KResp{}, ctls[b].resps[seenResps[b]:]...)
+				seenResps[b] = len(ctls[b].resps)
+				n.mu.Unlock()
+				kb := blockedAt[b]
+				if kb == "engine.batch" && pb == "engine.commit" {
+					kb = "hold"
+					parkStart[b] = len(c.Steps)
+				}
+				noteResps(b, rs)
+				c.Steps = append(c.Steps, KStep{T: b, Env: blockedEnv[b], Kind: kb, Resps: rs, Sample: n.B.GetCurrentRevision()})
+			}
+			if runErr != nil {
+				break
+			}
+		}
 		if ctls[t].panicked != nil {
 			runErr = fmt.Errorf("thread %d panicked: %v", t, ctls[t].panicked)
 			break
@@ -1430,4 +1565,168 @@ func (n *KBNode) RunCompactRace() (*KCompactCase, error) {
 		return c, fmt.Errorf("%s", pm)
 	}
 	return c, nil
+}
+
+// kbBarrier lines up n commits (or gives up after a short while, e.g. when a writer never reaches its commit).
+type kbBarrier struct {
+	mu    sync.Mutex
+	n, in int
+	ch    chan struct{}
+}
+
+func newKBBarrier(n int) *kbBarrier { return &kbBarrier{n: n, ch: make(chan struct{})} }
+
+func (b *kbBarrier) arrive() {
+	b.mu.Lock()
+	b.in++
+	if b.in == b.n {
+		close(b.ch)
+	}
+	b.mu.Unlock()
+	select {
+	case <-b.ch:
+	case <-time.After(20 * time.Millisecond):
+	}
+}
+
+// DoubleSuccessStress: `writers` clients update one key naming the same revision, their engine commits lined
+// up by a barrier, for `rounds` rounds (true concurrency inside the engine's Commit: the only way to reach a
+// check-then-write window there from outside). Returns a description of the first round with two successes.
+func (n *KBNode) DoubleSuccessStress(writers, rounds int) (string, interface{}, error) {
+	n.caseNo++
+	k := n.Key(0)
+	r, err := n.seqCall(KReq{Op: OpCreate, Val: []byte("s0")}, k)
+	if err != nil {
+		return "", nil, err
+	}
+	cur := r.Hdr
+	defer func() {
+		n.mu.Lock()
+		n.barrier = nil
+		n.mu.Unlock()
+	}()
+	for round := 0; round < rounds; round++ {
+		n.mu.Lock()
+		n.barrier = newKBBarrier(writers)
+		n.mu.Unlock()
+		resps := make([]KResp, writers)
+		var wg sync.WaitGroup
+		for i := 0; i < writers; i++ {
+			i := i
+			wg.Add(1)
+			go func() {
+				defer wg.Done()
+				resps[i] = n.Do(KReq{Op: OpUpdate, Val: []byte(fmt.Sprintf("r%dw%d", round, i)), Rev: cur}, k)
+			}()
+		}
+		wg.Wait()
+		if pm := n.panicMsg(); pm != "" {
+			return "", nil, fmt.Errorf("%s", pm)
+		}
+		succ := []uint64{}
+		js := []interface{}{}
+		for _, rp := range resps {
+			js = append(js, rp.JSON())
+			if !rp.Err && rp.Succ {
+				succ = append(succ, rp.Hdr)
+			}
+		}
+		if len(succ) > 1 {
+			st, _ := n.KeyStates(1)
+			var dump interface{}
+			if len(st) == 1 {
+				dump = st[0].JSON()
+			}
+			return fmt.Sprintf("round %d: %d updates naming revision %d all succeeded (revisions %v)", round, len(succ), cur, succ),
+				map[string]interface{}{"engine": n.Engine, "round": round, "expected_revision": cur, "responses": js, "key_records": dump}, nil
+		}
+		if len(succ) == 1 {
+			cur = succ[0]
+		} else {
+			// nobody won (e.g. every commit met the engine's conflict detection): re-read
+			n.mu.Lock()
+			n.barrier = nil
+			n.mu.Unlock()
+			g, gerr := n.B.Get(context.Background(), &proto.GetRequest{Key: k})
+			if gerr != nil || g == nil || g.Kv == nil {
+				return "", nil, fmt.Errorf("stress key unreadable in round %d", round)
+			}
+			cur = g.Kv.Revision
+		}
+	}
+	n.WaitRev(cur, 2*time.Second)
+	return "", nil, nil
+}
+
+// ListHeaderStress: one client updates a small set of keys back to back while another lists their range at
+// revision 0 (with and without limit) in a tight loop; every answer must carry header >= every kv revision.
+func (n *KBNode) ListHeaderStress(d time.Duration) (lists int, what string, detail interface{}, err error) {
+	n.caseNo++
+	ctx := context.Background()
+	const nk = 6
+	revs := make([]uint64, nk)
+	for i := 0; i < nk; i++ {
+		r, e := n.seqCall(KReq{Op: OpCreate, Val: []byte("l0")}, n.Key(i))
+		if e != nil {
+			return 0, "", nil, e
+		}
+		revs[i] = r.Hdr
+	}
+	prefix := []byte(fmt.Sprintf("%s/c%d/", KBPrefix, n.caseNo))
+	end := append([]byte{}, prefix...)
+	end[len(end)-1]++
+	stop := make(chan struct{})
+	var wg sync.WaitGroup
+	wg.Add(1)
+	go func() {
+		defer wg.Done()
+		for j := 0; ; j++ {
+			select {
+			case <-stop:
+				return
+			default:
+			}
+			i := j % nk
+			r := n.Do(KReq{Op: OpUpdate, Val: []byte("l"), Rev: revs[i]}, n.Key(i))
+			if r.Err || !r.Succ {
+				return
+			}
+			revs[i] = r.Hdr
+			if j%64 == 63 { // do not run away from the sequencer (result slots are a ring)
+				n.WaitRev(r.Hdr-32, time.Second)
+			}
+		}
+	}()
+	deadline := time.Now().Add(d)
+	for time.Now().Before(deadline) && what == "" {
+		limit := int64(0)
+		if lists%2 == 1 {
+			limit = 3
+		}
+		resp, e := n.B.List(ctx, &proto.RangeRequest{Key: prefix, End: end, Limit: limit})
+		lists++
+		if e != nil || resp == nil {
+			continue
+		}
+		for _, kv := range resp.Kvs {
+			if kv.Revision > resp.Header.Revision {
+				what = fmt.Sprintf("List(revision 0, limit %d) answered header %d with a kv at revision %d", limit, resp.Header.Revision, kv.Revision)
+				detail = map[string]interface{}{"engine": n.Engine, "header": resp.Header.Revision, "kv_revision": kv.Revision, "key": string(kv.Key), "lists_before": lists}
+				break
+			}
+		}
+	}
+	close(stop)
+	wg.Wait()
+	last := uint64(0)
+	for _, r := range revs {
+		if r > last {
+			last = r
+		}
+	}
+	n.WaitRev(last, 2*time.Second)
+	if pm := n.panicMsg(); pm != "" {
+		return lists, what, detail, fmt.Errorf("%s", pm)
+	}
+	return lists, what, detail, nil
 }
